@@ -1,2 +1,515 @@
-//! World extension: timelock flows (instruction builders over the real program).
+//! World extension: timelock flows (instruction builders over the real `gmsol_timelock` program).
+//!
+//! Everything here only *encodes* instructions (accounts + Anchor data) and reads account bytes;
+//! no timelock logic is re-implemented. PDAs are derived from literal seeds (the same literals the
+//! program uses) so that the harness does not depend on `cfg(timelock)` items of the SDK.
 use super::*;
+use anchor_lang::AccountDeserialize;
+use gmsol_timelock::{accounts as ta, instruction as ti};
+use gmsol_utils::instruction::InstructionAccess;
+
+pub use gmsol_timelock::ID as TL_PID;
+
+/// Role names of the timelock program (literals, cross-checked against `gmsol_timelock::roles` in
+/// [`World::bootstrap_timelock`]).
+pub const TIMELOCK_ADMIN: &str = "TIMELOCK_ADMIN";
+pub const TIMELOCK_KEEPER: &str = "TIMELOCK_KEEPER";
+pub const TIMELOCKED_PREFIX: &str = "__TLD_";
+pub const ADMIN_EXECUTOR_ROLE: &str = "ADMIN";
+
+/// `__TLD_<role>`: the role whose holders may approve instructions of the executor named `role`.
+pub fn timelocked_role(role: &str) -> String {
+    format!("{TIMELOCKED_PREFIX}{role}")
+}
+
+/// Timelock-program instruction.
+pub fn tix(accounts: impl ToAccountMetas, data: impl InstructionData) -> Instruction {
+    ix(TL_PID, accounts, data)
+}
+
+/// Zero-padded 32-byte role seed (`None` if the name is longer than 32 bytes).
+pub fn role_seed(role: &str) -> Option<[u8; 32]> {
+    let b = role.as_bytes();
+    if b.len() > 32 {
+        return None;
+    }
+    let mut out = [0u8; 32];
+    out[..b.len()].copy_from_slice(b);
+    Some(out)
+}
+
+pub fn timelock_config_address(store: &Pubkey) -> Pubkey {
+    Pubkey::find_program_address(&[b"timelock_config", store.as_ref()], &TL_PID).0
+}
+
+pub fn executor_address(store: &Pubkey, role: &str) -> Pubkey {
+    let seed = role_seed(role).expect("role name too long");
+    Pubkey::find_program_address(&[b"timelock_executor", store.as_ref(), &seed], &TL_PID).0
+}
+
+pub fn executor_wallet(executor: &Pubkey) -> Pubkey {
+    Pubkey::find_program_address(&[b"wallet", executor.as_ref()], &TL_PID).0
+}
+
+// ------------------------------------------------------------------------------------------------
+// Store-side instructions used around the timelock (role management, authority hand-over).
+
+pub fn enable_role_ix(authority: Pubkey, store: Pubkey, role: &str) -> Instruction {
+    six(sa::EnableRole { authority, store }, si::EnableRole { role: role.to_string() })
+}
+
+pub fn disable_role_ix(authority: Pubkey, store: Pubkey, role: &str) -> Instruction {
+    six(sa::DisableRole { authority, store }, si::DisableRole { role: role.to_string() })
+}
+
+pub fn grant_role_ix(authority: Pubkey, store: Pubkey, user: Pubkey, role: &str) -> Instruction {
+    six(sa::GrantRole { authority, store }, si::GrantRole { user, role: role.to_string() })
+}
+
+pub fn revoke_role_ix(authority: Pubkey, store: Pubkey, user: Pubkey, role: &str) -> Instruction {
+    six(sa::RevokeRole { authority, store }, si::RevokeRole { user, role: role.to_string() })
+}
+
+pub fn transfer_store_authority_ix(authority: Pubkey, store: Pubkey, next_authority: Pubkey) -> Instruction {
+    six(sa::TransferStoreAuthority { authority, store, next_authority }, si::TransferStoreAuthority {})
+}
+
+pub fn accept_store_authority_ix(next_authority: Pubkey, store: Pubkey) -> Instruction {
+    six(sa::AcceptStoreAuthority { next_authority, store }, si::AcceptStoreAuthority {})
+}
+
+pub fn insert_amount_ix(authority: Pubkey, store: Pubkey, key: &str, amount: u64) -> Instruction {
+    six(sa::InsertConfig { authority, store }, si::InsertAmount { key: key.to_string(), amount })
+}
+
+pub fn insert_factor_ix(authority: Pubkey, store: Pubkey, key: &str, factor: u128) -> Instruction {
+    six(sa::InsertConfig { authority, store }, si::InsertFactor { key: key.to_string(), factor })
+}
+
+pub fn toggle_feature_ix(authority: Pubkey, store: Pubkey, domain: &str, action: &str, enable: bool) -> Instruction {
+    six(
+        sa::ToggleFeature { authority, store },
+        si::ToggleFeature { domain: domain.to_string(), action: action.to_string(), enable },
+    )
+}
+
+/// The `check_role` CPI every access-controlled timelock instruction performs first.
+pub fn check_role_data(role: &str) -> Vec<u8> {
+    si::CheckRole { role: role.to_string() }.data()
+}
+
+// ------------------------------------------------------------------------------------------------
+// Timelock instructions.
+
+pub fn tl_initialize_executor_ix(payer: Pubkey, store: Pubkey, role: &str) -> Instruction {
+    let executor = executor_address(&store, role);
+    tix(
+        ta::InitializeExecutor {
+            payer,
+            store,
+            executor,
+            wallet: executor_wallet(&executor),
+            system_program: system_program::ID,
+        },
+        ti::InitializeExecutor { role: role.to_string() },
+    )
+}
+
+pub fn tl_initialize_config_ix(authority: Pubkey, store: Pubkey, delay: u32) -> Instruction {
+    let executor = executor_address(&store, ADMIN_EXECUTOR_ROLE);
+    tix(
+        ta::InitializeConfig {
+            authority,
+            store,
+            timelock_config: timelock_config_address(&store),
+            executor,
+            wallet: executor_wallet(&executor),
+            store_program: STORE_PID,
+            system_program: system_program::ID,
+        },
+        ti::InitializeConfig { delay },
+    )
+}
+
+pub fn tl_increase_delay_ix(authority: Pubkey, store: Pubkey, timelock_config: Pubkey, delta: u32) -> Instruction {
+    tix(
+        ta::IncreaseDelay { authority, store, timelock_config, store_program: STORE_PID },
+        ti::IncreaseDelay { delta },
+    )
+}
+
+/// Arguments of `create_instruction_buffer` that a hostile caller can choose freely.
+#[derive(Clone, Debug)]
+pub struct CreateBufferArgs {
+    /// Number of leading remaining accounts that form the buffered account list.
+    pub num_accounts: u16,
+    /// Declared data length (the program sizes the account from it).
+    pub data_len: u16,
+    pub data: Vec<u8>,
+    /// Indexes (into the remaining accounts) to be flagged as signers.
+    pub signers: Vec<u16>,
+    /// Remaining accounts as sent (signer flags are always cleared, as the SDK does: the buffer is
+    /// created by a keeper who cannot sign for the executor wallet).
+    pub remaining: Vec<AccountMeta>,
+}
+
+impl CreateBufferArgs {
+    /// The SDK's encoding of `instruction` (signer positions moved into `signers`).
+    pub fn from_instruction(instruction: &Instruction) -> Self {
+        let mut signers = vec![];
+        let remaining = instruction
+            .accounts
+            .iter()
+            .enumerate()
+            .map(|(i, m)| {
+                if m.is_signer {
+                    signers.push(i as u16);
+                }
+                AccountMeta { pubkey: m.pubkey, is_signer: false, is_writable: m.is_writable }
+            })
+            .collect::<Vec<_>>();
+        Self {
+            num_accounts: remaining.len() as u16,
+            data_len: instruction.data.len() as u16,
+            data: instruction.data.clone(),
+            signers,
+            remaining,
+        }
+    }
+}
+
+/// `create_instruction_buffer`. The buffer account is created by Anchor `init` (System
+/// `create_account` CPI), so `buffer` must sign the transaction together with `authority`.
+pub fn tl_create_buffer_ix(
+    authority: Pubkey,
+    store: Pubkey,
+    executor: Pubkey,
+    buffer: Pubkey,
+    instruction_program: Pubkey,
+    args: &CreateBufferArgs,
+) -> Instruction {
+    let mut i = tix(
+        ta::CreateInstructionBuffer {
+            authority,
+            store,
+            executor,
+            instruction_buffer: buffer,
+            instruction_program,
+            store_program: STORE_PID,
+            system_program: system_program::ID,
+        },
+        ti::CreateInstructionBuffer {
+            num_accounts: args.num_accounts,
+            data_len: args.data_len,
+            data: args.data.clone(),
+            signers: args.signers.clone(),
+        },
+    );
+    i.accounts.extend(args.remaining.iter().cloned());
+    i
+}
+
+pub fn tl_approve_ix(authority: Pubkey, store: Pubkey, executor: Pubkey, role: &str, buffer: Pubkey) -> Instruction {
+    tix(
+        ta::ApproveInstruction { authority, store, executor, instruction: buffer, store_program: STORE_PID },
+        ti::ApproveInstruction { role: role.to_string() },
+    )
+}
+
+pub fn tl_approve_many_ix(authority: Pubkey, store: Pubkey, executor: Pubkey, role: &str, buffers: &[Pubkey]) -> Instruction {
+    let mut i = tix(
+        ta::ApproveInstructions { authority, store, executor, store_program: STORE_PID },
+        ti::ApproveInstructions { role: role.to_string() },
+    );
+    i.accounts.extend(buffers.iter().map(|b| AccountMeta::new(*b, false)));
+    i
+}
+
+pub fn tl_cancel_ix(authority: Pubkey, store: Pubkey, executor: Pubkey, rent_receiver: Pubkey, buffer: Pubkey) -> Instruction {
+    tix(
+        ta::CancelInstruction { authority, store, executor, rent_receiver, instruction: buffer, store_program: STORE_PID },
+        ti::CancelInstruction {},
+    )
+}
+
+pub fn tl_cancel_many_ix(authority: Pubkey, store: Pubkey, executor: Pubkey, rent_receiver: Pubkey, buffers: &[Pubkey]) -> Instruction {
+    let mut i = tix(
+        ta::CancelInstructions { authority, store, executor, rent_receiver, store_program: STORE_PID },
+        ti::CancelInstructions {},
+    );
+    i.accounts.extend(buffers.iter().map(|b| AccountMeta::new(*b, false)));
+    i
+}
+
+/// Named accounts of `execute_instruction` (every one can be substituted by a hostile caller).
+#[derive(Clone, Debug)]
+pub struct ExecuteAccounts {
+    pub authority: Pubkey,
+    pub store: Pubkey,
+    pub timelock_config: Pubkey,
+    pub executor: Pubkey,
+    pub wallet: Pubkey,
+    pub rent_receiver: Pubkey,
+    pub buffer: Pubkey,
+}
+
+/// `execute_instruction`; `remaining` are the buffered instruction's accounts (signer flags are
+/// cleared here as the SDK does: the wallet PDA signs inside the program) plus, if needed, the
+/// target program account.
+pub fn tl_execute_ix(a: &ExecuteAccounts, remaining: &[AccountMeta]) -> Instruction {
+    let mut i = tix(
+        ta::ExecuteInstruction {
+            authority: a.authority,
+            store: a.store,
+            timelock_config: a.timelock_config,
+            executor: a.executor,
+            wallet: a.wallet,
+            rent_receiver: a.rent_receiver,
+            instruction: a.buffer,
+            store_program: STORE_PID,
+        },
+        ti::ExecuteInstruction {},
+    );
+    i.accounts.extend(
+        remaining
+            .iter()
+            .map(|m| AccountMeta { pubkey: m.pubkey, is_signer: false, is_writable: m.is_writable }),
+    );
+    i
+}
+
+/// Timelock-bypassing `revoke_role` (by a `__TLD_ADMIN` holder, through the ADMIN executor wallet).
+pub fn tl_bypass_revoke_role_ix(authority: Pubkey, store: Pubkey, user: Pubkey, role: &str) -> Instruction {
+    let executor = executor_address(&store, ADMIN_EXECUTOR_ROLE);
+    tix(
+        ta::RevokeRole {
+            authority,
+            store,
+            executor,
+            wallet: executor_wallet(&executor),
+            user,
+            store_program: STORE_PID,
+        },
+        ti::RevokeRole { role: role.to_string() },
+    )
+}
+
+/// Timelock-bypassing `set_expected_price_provider` (by a `__TLD_MARKET_KEEPER` holder).
+pub fn tl_bypass_set_expected_price_provider_ix(
+    authority: Pubkey,
+    store: Pubkey,
+    token_map: Pubkey,
+    token: Pubkey,
+    new_expected_price_provider: u8,
+) -> Instruction {
+    let executor = executor_address(&store, RoleKey::MARKET_KEEPER);
+    tix(
+        ta::SetExpectedPriceProvider {
+            authority,
+            store,
+            token_map,
+            executor,
+            wallet: executor_wallet(&executor),
+            token,
+            store_program: STORE_PID,
+            system_program: system_program::ID,
+        },
+        ti::SetExpectedPriceProvider { new_expected_price_provider },
+    )
+}
+
+// ------------------------------------------------------------------------------------------------
+// Reading state.
+
+/// What an instruction-buffer account currently holds (decoded by the program crate's own
+/// `InstructionBuffer` reader — observation only).
+#[derive(Clone, Debug)]
+pub struct BufferView {
+    pub executor: Pubkey,
+    pub rent_receiver: Pubkey,
+    pub approved_at: Option<i64>,
+    pub approver: Option<Pubkey>,
+    /// `to_instruction(false)`: exactly the instruction the program would invoke.
+    pub instruction: Instruction,
+}
+
+pub fn read_buffer(svm: &Svm, buffer: &Pubkey) -> Option<BufferView> {
+    let a = svm.get(buffer)?;
+    if a.owner != TL_PID {
+        return None;
+    }
+    let data = a.data.clone();
+    vcommon::monitor::guard(move || {
+        let b = gmsol_timelock::states::utils::InstructionBuffer::try_deserialize(&mut &data[..]).ok()?;
+        let instruction = b.to_instruction(false).ok()?;
+        Some(BufferView {
+            executor: *b.header.executor(),
+            rent_receiver: *b.header.rent_receiver(),
+            approved_at: b.header.approved_at(),
+            approver: b.header.apporver().copied(),
+            instruction,
+        })
+    })
+    .ok()
+    .flatten()
+}
+
+pub fn read_delay(svm: &Svm, timelock_config: &Pubkey) -> Option<u32> {
+    exchange::load::<gmsol_timelock::states::TimelockConfig>(svm, timelock_config).map(|c| c.delay())
+}
+
+/// Role-store view read from the account (role enabled and granted); errors (not a member /
+/// unknown or disabled role) count as "does not hold". Uses the `RoleStore` directly because
+/// `Store::has_role` needs the LastRestartSlot sysvar, which only exists inside a transaction.
+pub fn store_has_role(svm: &Svm, store: &Pubkey, user: &Pubkey, role: &str) -> Option<bool> {
+    let s: gmsol_store::states::Store = exchange::load(svm, store)?;
+    Some(s.role().has_role(user, role).unwrap_or(false))
+}
+
+pub fn store_is_authority(svm: &Svm, store: &Pubkey, user: &Pubkey) -> Option<bool> {
+    let s: gmsol_store::states::Store = exchange::load(svm, store)?;
+    Some(s.is_authority(user))
+}
+
+// ------------------------------------------------------------------------------------------------
+// Flows.
+
+/// Who is who in a timelock world (all keys are deterministic labels).
+#[derive(Clone, Debug)]
+pub struct TimelockActors {
+    /// Holds TIMELOCK_ADMIN, TIMELOCK_KEEPER and `__TLD_ADMIN` (needed by `initialize_config`).
+    pub tl_admin: Pubkey,
+    /// Holds TIMELOCK_KEEPER only.
+    pub tl_keeper: Pubkey,
+    /// Executor role names; `executors[i]` / `wallets[i]` are their accounts.
+    pub executor_roles: Vec<String>,
+    pub executors: Vec<Pubkey>,
+    pub wallets: Vec<Pubkey>,
+    pub timelock_config: Pubkey,
+}
+
+impl World {
+    /// Enable the timelock roles, create the executors (one per `executor_roles`, `ADMIN` must be the
+    /// first), grant each executor wallet its store role, hand the store authority over to the ADMIN
+    /// executor wallet and initialize the timelock config with `delay` — all through real
+    /// instructions. Afterwards the store authority is the ADMIN executor wallet.
+    ///
+    /// `pre_grants` are `(user, role)` pairs granted by the store admin after the roles were enabled
+    /// and before the authority is handed over (afterwards only the timelock can grant).
+    pub fn bootstrap_timelock(
+        &mut self,
+        store: Pubkey,
+        executor_roles: &[&str],
+        delay: u32,
+        label: &str,
+        pre_grants: &[(Pubkey, String)],
+    ) -> TimelockActors {
+        assert_eq!(gmsol_timelock::roles::TIMELOCK_ADMIN, TIMELOCK_ADMIN);
+        assert_eq!(gmsol_timelock::roles::TIMELOCK_KEEPER, TIMELOCK_KEEPER);
+        assert_eq!(gmsol_timelock::roles::TIMELOCKED, TIMELOCKED_PREFIX);
+        assert_eq!(executor_roles.first().copied(), Some(ADMIN_EXECUTOR_ROLE));
+        let admin = self.admin;
+        let tl_admin = key(&format!("tl-admin:{label}"));
+        let tl_keeper = key(&format!("tl-keeper:{label}"));
+        self.svm.airdrop(&tl_admin, 1_000 * LAMPORTS);
+        self.svm.airdrop(&tl_keeper, 1_000 * LAMPORTS);
+        let mut roles = vec![TIMELOCK_ADMIN.to_string(), TIMELOCK_KEEPER.to_string()];
+        roles.extend(executor_roles.iter().map(|r| timelocked_role(r)));
+        for r in &roles {
+            self.must("enable timelock role", &[enable_role_ix(admin, store, r)], &[admin]);
+        }
+        for r in [TIMELOCK_ADMIN, TIMELOCK_KEEPER] {
+            self.must("grant tl_admin", &[grant_role_ix(admin, store, tl_admin, r)], &[admin]);
+        }
+        self.must(
+            "grant tl_admin __TLD_ADMIN",
+            &[grant_role_ix(admin, store, tl_admin, &timelocked_role(ADMIN_EXECUTOR_ROLE))],
+            &[admin],
+        );
+        self.must("grant tl_keeper", &[grant_role_ix(admin, store, tl_keeper, TIMELOCK_KEEPER)], &[admin]);
+        let mut executors = vec![];
+        let mut wallets = vec![];
+        for r in executor_roles {
+            self.must("initialize_executor", &[tl_initialize_executor_ix(tl_keeper, store, r)], &[tl_keeper]);
+            let e = executor_address(&store, r);
+            let w = executor_wallet(&e);
+            self.svm.airdrop(&w, 10 * LAMPORTS);
+            if *r != ADMIN_EXECUTOR_ROLE {
+                // The wallet needs the store role to be able to act (role must be enabled already).
+                self.must("grant wallet role", &[grant_role_ix(admin, store, w, r)], &[admin]);
+            }
+            executors.push(e);
+            wallets.push(w);
+        }
+        for (user, role) in pre_grants {
+            self.must("pre-grant", &[grant_role_ix(admin, store, *user, role)], &[admin]);
+        }
+        self.must(
+            "transfer_store_authority",
+            &[transfer_store_authority_ix(admin, store, wallets[0])],
+            &[admin],
+        );
+        self.must("initialize_config", &[tl_initialize_config_ix(tl_admin, store, delay)], &[tl_admin]);
+        TimelockActors {
+            tl_admin,
+            tl_keeper,
+            executor_roles: executor_roles.iter().map(|s| s.to_string()).collect(),
+            executors,
+            wallets,
+            timelock_config: timelock_config_address(&store),
+        }
+    }
+
+    /// Create a buffer for `instruction` the way the SDK does.
+    pub fn tl_create(&mut self, creator: Pubkey, store: Pubkey, executor: Pubkey, buffer: Pubkey, instruction: &Instruction) -> TxResult {
+        let args = CreateBufferArgs::from_instruction(instruction);
+        let i = tl_create_buffer_ix(creator, store, executor, buffer, instruction.program_id, &args);
+        self.send(&[i], &[creator, buffer])
+    }
+
+    pub fn tl_approve(&mut self, approver: Pubkey, store: Pubkey, role: &str, buffer: Pubkey) -> TxResult {
+        let i = tl_approve_ix(approver, store, executor_address(&store, role), role, buffer);
+        self.send(&[i], &[approver])
+    }
+
+    /// Execute a buffer as the SDK does (accounts taken from the buffer contents).
+    pub fn tl_execute(&mut self, keeper: Pubkey, store: Pubkey, buffer: Pubkey) -> Option<TxResult> {
+        let v = read_buffer(&self.svm, &buffer)?;
+        let a = ExecuteAccounts {
+            authority: keeper,
+            store,
+            timelock_config: timelock_config_address(&store),
+            executor: v.executor,
+            wallet: executor_wallet(&v.executor),
+            rent_receiver: v.rent_receiver,
+            buffer,
+        };
+        let mut remaining = v.instruction.accounts.clone();
+        if !remaining.iter().any(|m| m.pubkey == v.instruction.program_id) && v.instruction.program_id != STORE_PID {
+            remaining.push(AccountMeta::new_readonly(v.instruction.program_id, false));
+        }
+        Some(self.send(&[tl_execute_ix(&a, &remaining)], &[keeper]))
+    }
+
+    /// Give the store authority back to `self.admin` through a real timelocked
+    /// `transfer_store_authority` (create → approve → wait `delay` → execute) followed by
+    /// `accept_store_authority`. The timelock config keeps existing; afterwards `admin` can grant /
+    /// revoke roles directly again.
+    pub fn tl_restore_admin_authority(&mut self, store: Pubkey, t: &TimelockActors, delay: u32, label: &str) {
+        let admin = self.admin;
+        let buffer = key(&format!("tl-restore-buffer:{label}"));
+        let inner = transfer_store_authority_ix(t.wallets[0], store, admin);
+        if let Err((e, m)) = self.tl_create(t.tl_keeper, store, t.executors[0], buffer, &inner) {
+            panic!("bootstrap step `restore: create` failed: {e:?} {:?}", m.logs);
+        }
+        if let Err((e, m)) = self.tl_approve(t.tl_admin, store, ADMIN_EXECUTOR_ROLE, buffer) {
+            panic!("bootstrap step `restore: approve` failed: {e:?} {:?}", m.logs);
+        }
+        self.svm.warp(delay as i64);
+        match self.tl_execute(t.tl_keeper, store, buffer) {
+            Some(Ok(_)) => {}
+            other => panic!("bootstrap step `restore: execute` failed: {:?}", other.map(|r| r.map(|_| ()).map_err(|(e, _)| e))),
+        }
+        self.must("accept_store_authority", &[accept_store_authority_ix(admin, store)], &[admin]);
+    }
+}
